@@ -10,7 +10,8 @@ RULE = ("one case = a history of 2-5 runs on one real recorder: operations of tw
         "the same class several times with different extractors: dict / raises / junk int / junk pairs / none; the dict handed "
         "back as a dict or in any other form dict() accepts: OrderedDict, defaultdict, MappingProxyType, ChainMap, UserDict, an "
         "object with keys()/__getitem__, list / tuple / generator of pairs, an items view - randomly and as a deterministic "
-        "grid shape x termination) terminating by "
+        "grid shape x termination; a grid in which recording is switched off, and on again, while the operation is in flight) "
+        "terminating by "
         "return, ordinary exception or interrupt at a random step incl. inside intercepted bodies and after outputs were "
         "captured, with discards and replays in between; operation classes that derive from another class of the service "
         "(base plain or with registered recording parameters, derived class registered or not, the decorated operation defined "
@@ -59,11 +60,8 @@ def rand_extractor(rng):
     if r < 0.3:
         return {"kind": "none"}
     if r < 0.6:
-        ex = {"kind": "dict", "d": [[k, pv.rand_pyval(rng, 1, objs=False)] for k in
-                                    rng.sample(["tenant", "size", "k", "flag é", "zone"], rng.randrange(0, 4))]}
-        if rng.random() < 0.5:
-            ex["shape"] = rng.choice(EXTRACTOR_SHAPES[1:])
-        return ex
+        return {"kind": "dict", "d": [[k, pv.rand_pyval(rng, 1, objs=False)] for k in
+                                      rng.sample(["tenant", "size", "k", "flag é", "zone"], rng.randrange(0, 4))]}
     if r < 0.75:
         return {"kind": "raises"}
     return {"kind": "junk", "junk": rng.choice(["int", "pairs"])}
@@ -123,8 +121,32 @@ def extractor_shape_grid():
             yield dict(interrupt_kind="keyboard", draws=[], runs=runs, cassette="memory", lookup=True, stream="extractor-shapes")
 
 
+def switched_off_grid():
+    """deterministic core: recording is switched off (and on again) while the operation is in flight - the run is still
+    finalised and saved, and its metadata still tells how it ended"""
+    term = {"return": {"k": "ret", "e": {"lit": pv.i(1)}}, "raise": {"k": "raise", "ty": "ValueError"},
+            "interrupt": {"k": "interrupt"}}
+    out_site = dict(k="out", cfg=dict(alias="send", static=True, handler="none", fail=True, default=pv.none()),
+                    body={"k": "ret", "e": {"lit": pv.none()}}, args=[{"lit": pv.s("x")}], kwargs=[])
+    for how in ("return", "raise", "interrupt"):
+        for back_on in (False, True):
+            for classlevel in (False, True):
+                tail = rd.clean(term[how])
+                if back_on:
+                    tail = {"k": "enable", "b": True, "next": tail}
+                first = dict(out_site, next={"k": "enable", "b": False, "next": dict(rd.clean(out_site), next=tail)})
+                early = {"k": "enable", "b": False, "next": dict(rd.clean(out_site), next=rd.clean(tail))}
+                mk = lambda body, cls: dict(kind="record", enabled=True, prm=dict(PLAIN_PRM), save_fails=False,    # noqa: E731
+                                            op=dict(cls=cls, classlevel=classlevel, body=body,
+                                                    extractor={"kind": "dict", "d": [["tenant", pv.s("t1")]]}))
+                yield dict(interrupt_kind="keyboard", draws=[], runs=[mk(first, "OpA"), mk(early, "OpB"), mk(rd.clean(first), "OpA")],
+                           cassette="memory", lookup=True, lookup_variants=True, stream="switched-off-in-flight")
+
+
 def generate(rng, tier):
-    cases = list(hierarchy_grid()) + list(extractor_shape_grid())
+    cases = list(hierarchy_grid()) + list(extractor_shape_grid()) + list(switched_off_grid())
+    shape_rng = __import__("random").Random()
+    shape_rng.setstate(rng.getstate())     # (a copy of the stream: the histories below stay what they were)
     n = 220 if tier == "quick" else 3000
     for i in range(n):
         runs = []
@@ -140,6 +162,8 @@ def generate(rng, tier):
                 continue
             op = rd.rand_opdef(rng, W, budget=rng.choice([3, 6, 10]), cls=rng.choice(classes))
             op["extractor"] = rand_extractor(rng)
+            if op["extractor"]["kind"] == "dict" and shape_rng.random() < 0.5:
+                op["extractor"]["shape"] = shape_rng.choice(EXTRACTOR_SHAPES[1:])
             op["classlevel"] = (op["cls"] == "OpB")
             if rng.random() < 0.12:
                 # a run that RETURNS a value shaped like the stored form of an exception did not end in an exception
